@@ -15,7 +15,8 @@ Full statement (DESIGN 4/C01), for every template `pt` and every `to_single_wave
         ∀ c ∈ P.chanNames, ∀ t, 0 ≤ t → t < P.dur → prog.sample c t = some ((P.val c).at t)
 
 Proved here (`_partial`, see notes/C01.md for the table): the statement
-* for `Stage3` — constant, function, table, point atoms and `AtomicMultiChannelPT`s of them, composed by sequencing,
+* for `Stage3` — constant, function, table, point atoms, `AtomicMultiChannelPT`s of them and `ArithmeticAtomicPT`s
+  of such atoms (12 of the 13 node kinds), composed by sequencing,
   repetition, indexed iteration, mapping, `ParallelChannelPT` and `ArithmeticPT` (scalar) in any nesting — exactly
   outside the class of PF-11 (`compile_correct_partial`), under any global transformation
   (`compile_correct_under_trafo`, `compile_correct_global_trafo_partial`) and for every `to_single_waveform` set
@@ -24,15 +25,15 @@ Proved here (`_partial`, see notes/C01.md for the table): the statement
   junctions inside reversed parts (`compile_correct_reversal_partial`);
 always for programs all of whose pieces have positive duration and *given* that the denotation exists
 (`denoteTop … = .ok P`; its existence is not proved: the denotation additionally demands affine function expressions
-that evaluate, and equal channel sets of sequenced parts).  `ArithmeticAtomicPT`, wrappers in atomic context and time
+that evaluate, and equal channel sets of sequenced parts).  Wrappers in atomic context and time
 reversal over table-like atoms are covered by the correspondence + judge only; `builder_correct_over_atoms` shows
 that the builder part of the proof does not depend on which atoms are used.
 -/
 namespace QP.Props.C01
 open QP.PT
 
-/-- **compile correctness (partial)**: for a stage-3 template (`Stage3`: constant, function, table atoms and
-`AtomicMultiChannelPT`s of them, composed by sequencing, repetition, indexed iteration, mapping,
+/-- **compile correctness (partial)**: for a stage-3 template (`Stage3`: constant, function, table, point atoms,
+`AtomicMultiChannelPT`s of them and `ArithmeticAtomicPT`s of such atoms, composed by sequencing, repetition, indexed iteration, mapping,
 `ParallelChannelPT` and `ArithmeticPT` with a scalar, in any nesting) **outside the class of the open finding
 PF-11** (`inPF11 … = false`: no channel overwritten by a `ParallelChannelPT` is touched by a transformation of an
 enclosing template), the compiled program, sampled anywhere in `[0, duration)`, yields on every channel of the
@@ -200,15 +201,23 @@ example : Stage2 (.seq none [exPt, .rep none exPt (.var "n") [] []] [] []) :=
     intro p hp
     simp only [List.mem_cons, List.not_mem_nil, or_false] at hp
     rcases hp with rfl | rfl
-    · exact Stage2.atom AtomTree.const
-    · exact Stage2.rep (Stage2.atom AtomTree.const))
+    · exact Stage2.atom (AtomTreeP.base AtomTree.const)
+    · exact Stage2.rep (Stage2.atom (AtomTreeP.base AtomTree.const)))
 
 example : ∃ prog P, createProgram exPt [] none [] [] = .ok (some prog) ∧ denoteTop exPt [] none [] = .ok P ∧
     prog.allPos := ⟨exProg, _, exPt_program, exPt_denote, exProg_allPos⟩
 
+/-- `ArithmeticAtomicPT` (here `exPt - exPt` under a sequence) is in the scope of `compile_correct_partial` -/
+example : Stage3 (.seq none [.arithAtomic none exPt true exPt []] [] []) :=
+  Stage3.seq (by
+    intro p hp
+    simp only [List.mem_singleton] at hp
+    subst hp
+    exact Stage3.atom (AtomTreeP.arithAtomic (AtomTreeP.base AtomTree.const) (AtomTreeP.base AtomTree.const)))
+
 /-- a parallel-channel template below an arithmetic one, outside PF-11: in the scope of `compile_correct_partial` -/
 example : Stage3 pf11SafePt ∧ inPF11 pf11SafePt (topCm pf11SafePt []) = false :=
-  ⟨Stage3.arith (Stage3.parallel (Stage3.atom AtomTree.func)) (by
+  ⟨Stage3.arith (Stage3.parallel (Stage3.atom (AtomTreeP.base AtomTree.func))) (by
     intro x hx
     simp only [List.mem_singleton] at hx
     subst hx
@@ -217,7 +226,7 @@ example : Stage3 pf11SafePt ∧ inPF11 pf11SafePt (topCm pf11SafePt []) = false 
 /-- the PF-11 witness is a stage-3 template; the only hypothesis of `compile_correct_partial` it violates is the
 class predicate -/
 example : Stage3 pf11Pt ∧ inPF11 pf11Pt (topCm pf11Pt []) = true :=
-  ⟨Stage3.arith (Stage3.parallel (Stage3.atom AtomTree.func)) trivial, by decide⟩
+  ⟨Stage3.arith (Stage3.parallel (Stage3.atom (AtomTreeP.base AtomTree.func))) trivial, by decide⟩
 
 /-! ## PF-11 (open finding): `ParallelChannelPulseTemplate` chains `(global, parallel)`
 
